@@ -213,6 +213,9 @@ def rule_typesweep(ctx) -> RuleResult:
     W = p.cls("H5Writer")
     funcs = [f for f in p.all_functions() if f.cls is None or f.cls is not W]
     graphs: dict = {}
+    from ._c09_consts import Consts
+
+    consts = Consts(p, ctx.view)
 
     def call_sites(f0):
         """calls of f0 by name in the other functions: (caller, call)"""
@@ -242,6 +245,8 @@ def rule_typesweep(ctx) -> RuleResult:
         vals = {arg.value} if isinstance(arg, ast.Constant) else const_values(arg, node)
         if vals is None:
             vals = _returned_constants(p, f0, arg)
+        if vals is None:
+            vals = consts.strs(arg, f0) or None  # a helper scanning a module table, tables put together, ...
         q = None
         if vals is None:
             a = expanded(arg, node, defs)
